@@ -423,13 +423,29 @@ impl C18 {
         let w = if cmplx { 2 } else { 1 };
         match which {
             0 => {
-                let mat: Vec<f64> = (0..m * n * w).map(|_| if dyadic { dy(rng, 32, 4.0) } else { rng.uniform(-8.0, 8.0) }).collect();
-                let c: Vec<f64> = (0..m * w).map(|_| if dyadic { dy(rng, 64, 8.0) } else { rng.uniform(-8.0, 8.0) }).collect();
+                // 15 % of the exact affine maps are scaled by 2^s, s in -900..1012 (half of them within 2^64 of overflow): every operation stays exact
+                // (powers of two), but any intermediate such as f * (1/delta) may overflow or underflow
+                let scale = if dyadic && rng.chance(0.15) { (2.0f64).powi(if rng.chance(0.5) { rng.range(960, 1012) } else { rng.range(-900, 960) } as i32) } else { 1.0 };
+                let mat: Vec<f64> = (0..m * n * w).map(|_| if dyadic { dy(rng, 32, 4.0) * scale } else { rng.uniform(-8.0, 8.0) }).collect();
+                let c: Vec<f64> = (0..m * w).map(|_| if dyadic { dy(rng, 64, 8.0) * scale } else { rng.uniform(-8.0, 8.0) }).collect();
                 Kind::Affine { mat, c }
             }
             1 => {
                 let base: Vec<f64> = (0..m * w).map(|_| if dyadic { dy(rng, 1 << 12, 64.0) } else { rng.uniform(-100.0, 100.0) }).collect();
-                let cols: Vec<Vec<f64>> = (0..n).map(|_| (0..m * w).map(|_| if dyadic { dy(rng, 1 << 12, 64.0) } else { rng.uniform(-100.0, 100.0) }).collect()).collect();
+                let mut cols: Vec<Vec<f64>> = (0..n).map(|_| (0..m * w).map(|_| if dyadic { dy(rng, 1 << 12, 64.0) } else { rng.uniform(-100.0, 100.0) }).collect()).collect();
+                if dyadic {
+                    // some columns move a component by only a few ulp (or not at all): the quotient is then
+                    // t ulp / delta exactly — no threshold may round it to zero
+                    for col in cols.iter_mut() {
+                        for (i, v) in col.iter_mut().enumerate() {
+                            if rng.chance(0.1) {
+                                let b = base[i];
+                                let ulp = if b == 0.0 { f64::MIN_POSITIVE } else { f64::from_bits(b.abs().to_bits() + 1) - b.abs() };
+                                *v = b + *rng.pick(&[0.0, 1.0, -1.0, 2.0, 5.0]) * ulp;
+                            }
+                        }
+                    }
+                }
                 Kind::Table { base, cols }
             }
             _ => {
